@@ -720,14 +720,14 @@ fn handle_backend_messages<R: TransportReceiverT>(
 			Some(b'{') => {
 				// Single response to a request.
 				if let Ok(single) = serde_json::from_slice::<Response<_>>(raw) {
-					let maybe_unsub = process_single_response(
+					let maybe_closed = process_single_response(
 						&mut manager.lock(),
 						single.into_owned().into(),
 						max_buffer_capacity_per_subscription,
 					)?;
 
-					if let Some(unsub) = maybe_unsub {
-						return Ok(vec![FrontToBack::Request(unsub)]);
+					if let Some(sub_id) = maybe_closed {
+						return Ok(vec![FrontToBack::SubscriptionClosed(sub_id)]);
 					}
 				}
 				// Subscription response.
